@@ -27,8 +27,8 @@ Definition has_sep (s : bstr) : bool := existsb (fun c => (c =? SLASH) || (c =? 
 (* strings.Split(s, "/") : never empty; "" -> [""] *)
 Fixpoint split_slash_aux (s : bstr) (cur : bstr) : list bstr :=
   match s with
-  | [] => [rev cur]
-  | c :: r => if c =? SLASH then rev cur :: split_slash_aux r [] else split_slash_aux r (c :: cur)
+  | [] => [rev_append cur []]
+  | c :: r => if c =? SLASH then rev_append cur [] :: split_slash_aux r [] else split_slash_aux r (c :: cur)
   end.
 Definition split_slash (s : bstr) : list bstr := split_slash_aux s [].
 
